@@ -654,6 +654,9 @@ func (Prop) Run(c *engine.Ctx) {
 	if filter == "" || strings.Contains("sm9.Decrypt+UnwrapKey/uid-alignment", filter) {
 		runUIDAlignment(c)
 	}
+	if filter == "" || strings.Contains("padding.Unpad/length-block-as-integer", filter) {
+		runPadIntFields(c)
+	}
 	if filter != "" {
 		kase(c, "dev-filter-active", func(t *engine.T) { t.Eval(1); t.Cap("C13_DEV_FILTER=" + filter + ": partial run, not evidence") })
 	}
